@@ -148,8 +148,11 @@ struct RefVariant {
     int order = 0;            // 0 writer's order, 1 properties interleaved right after the arrays they need, 2 DIRP late
     bool odd_padding = false; // padding other than "up to 8"
     int hostile = 0;          // >0: NOT a permitted encoding - some arrays get a span that overlaps, overshoots, leaves a gap or is repeated,
-                              //     with a payload that matches the declared count (C07/C18 inputs); describe_hostile says what was done
+                              //     with a payload that matches the declared count, or a sub-header that contradicts its payload (C07/C18 inputs)
+    int hostile_target = -1;  // >=0: only the opportunity with this number is used (one defect per file, so that nothing earlier gets the file rejected)
+    mutable int hostile_seen = 0;
     mutable std::string hostile_desc;
+    bool hostile_now(Rng &rng, int num, int den) const { if (!hostile) return false; int k = hostile_seen++; return hostile_target >= 0 ? k == hostile_target : rng.chance(num, den); }
     std::string describe() const { std::ostringstream o; o << "split<=" << max_split << ",widen=" << widen << ",floatpos=" << float_pos << ",varvalence=" << force_variable_valence << ",offset=" << handle_offset << ",junk=" << junk_chunks << ",order=" << order << ",oddpad=" << odd_padding; return o.str(); }
 };
 struct ByteWriter { std::string b; void u(uint64_t v, int n) { for (int i = 0; i < n; ++i) b += (char)((v >> (8 * i)) & 0xff); } void raw(const std::string &s) { b += s; } };
@@ -168,7 +171,7 @@ inline std::vector<std::pair<size_t, size_t>> ref_spans(size_t n, int max_split,
 }
 inline std::vector<std::pair<size_t, size_t>> ref_spans_v(size_t n, const RefVariant &v, Rng &rng, const char *what) {
     auto r = ref_spans(n, v.max_split, rng);
-    if (!v.hostile || r.empty() || !rng.chance(1, 3)) return r;
+    if (r.empty() || !v.hostile_now(rng, 1, 3)) return r;
     size_t j = rng.below(r.size()); size_t k = 1 + rng.below(std::max<size_t>(1, std::min<size_t>(n, 8)));
     std::ostringstream d; d << what << " span " << j << "/" << r.size() << " [" << r[j].first << "+" << r[j].second << "] ";
     switch ((int)rng.below(7)) {
@@ -209,7 +212,9 @@ inline std::string ref_encode(const Canon &c, const RefVariant &v, Rng &rng) {
     // vertices
     bool fl = v.float_pos;
     if (fl) for (auto &p : c.pos) { std::string b = unhex(p); for (int d = 0; d < 3; ++d) { double x; memcpy(&x, b.data() + 8 * d, 8); if (!((double)(float)x == x) || (x == 0 && std::signbit(x))) fl = false; } }
-    for (auto sp : ref_spans_v(c.pos.size(), v, rng, "VERT")) { ByteWriter w; w.u(sp.first, 8); w.u(sp.second, 4); w.u(fl ? 1 : 2, 1); w.u(0, 3);
+    for (auto sp : ref_spans_v(c.pos.size(), v, rng, "VERT")) { ByteWriter w; w.u(sp.first, 8); w.u(sp.second, 4);
+        int h_enc = fl ? 1 : 2; if (v.hostile_now(rng, 1, 8)) { static const int E[] = {0, 1, 2, 3, 255}; h_enc = E[rng.below(5)]; v.hostile_desc += "VERT header encoding=" + std::to_string(h_enc) + " over a " + (fl ? "float" : "double") + " payload; "; }
+        w.u(h_enc, 1); w.u(0, 3);
         for (size_t i = 0; i < sp.second; ++i) { std::string b = unhex(c.pos[cl(sp.first + i, c.pos.size())]); if (!fl) w.raw(b); else for (int d = 0; d < 3; ++d) { double x; memcpy(&x, b.data() + 8 * d, 8); float y = (float)x; uint32_t u; memcpy(&u, &y, 4); w.u(u, 4); } }
         f.raw(ref_chunk("VERT", w.b, 1, rng, v.odd_padding)); junk(); }
     if (v.order == 1) { ensure_dir(); prop_chunks(0); }
@@ -223,9 +228,22 @@ inline std::string ref_encode(const Canon &c, const RefVariant &v, Rng &rng) {
             bool fixed = minval == maxval && maxval > 0 && maxval < 256 && !v.force_variable_valence;
             if (ent == 1) fixed = true;
             int hw = ref_width(maxh - off, v.widen), vw = ref_width(maxval, v.widen);
-            ByteWriter w; w.u(sp.first, 8); w.u(sp.second, 4); w.u(ent, 1); w.u(fixed ? maxval : 0, 1); w.u(fixed ? 0 : vw, 1); w.u(hw, 1); w.u(off, 8);
-            if (!fixed) for (size_t i = 0; i < sp.second; ++i) w.u(get(sp.first + i).size(), vw);
-            for (size_t i = 0; i < sp.second; ++i) for (int h : get(sp.first + i)) w.u((uint64_t)h - off, hw);
+            ByteWriter w;
+            uint64_t h_val = fixed ? maxval : 0, h_venc = fixed ? 0 : vw, h_henc = hw; int pm = 0;
+            if (v.hostile_now(rng, 1, 4)) {
+                // header fields that contradict each other or the payload (which stays laid out as computed, or is cut down):
+                // classes {variable, fixed valence} x {no, valid, invalid valence encoding} x {same, none, other, invalid handle encoding} x payload layout
+                static const int VAL[] = {1, 2, 3, 4, 6, 255}, ENC[] = {1, 2, 4}, BAD[] = {3, 5, 255};
+                if (rng.chance(1, 2)) h_val = 0; else if (rng.chance(1, 2)) h_val = VAL[rng.below(6)]; else if (!fixed) h_val = minval ? minval : 3;
+                int vc = (int)rng.below(10); h_venc = vc < 4 ? 0 : vc < 8 ? ENC[rng.below(3)] : vc < 9 ? BAD[rng.below(3)] : h_venc;
+                int hc = (int)rng.below(10); if (hc == 0) h_henc = 0; else if (hc == 1) h_henc = ENC[rng.below(3)]; else if (hc == 2) h_henc = BAD[rng.below(3)];
+                pm = (int)rng.below(4);   // 0 payload as computed, 1 none, 2 valence table only, 3 handles only
+                std::ostringstream d; d << "TOPO(" << ent << ") header valence=" << h_val << " valence_encoding=" << h_venc << " handle_encoding=" << h_henc << " over a payload laid out for valence=" << (fixed ? maxval : 0) << "/" << (fixed ? 0 : vw) << "/" << hw << (pm == 1 ? ", payload dropped" : pm == 2 ? ", valence table only" : pm == 3 ? ", handles only" : "");
+                v.hostile_desc += d.str() + "; ";
+            }
+            w.u(sp.first, 8); w.u(sp.second, 4); w.u(ent, 1); w.u(h_val, 1); w.u(h_venc, 1); w.u(h_henc, 1); w.u(off, 8);
+            if (!fixed && (pm == 0 || pm == 2)) for (size_t i = 0; i < sp.second; ++i) w.u(get(sp.first + i).size(), vw);
+            if (pm == 0 || pm == 3) for (size_t i = 0; i < sp.second; ++i) for (int h : get(sp.first + i)) w.u((uint64_t)h - off, hw);
             f.raw(ref_chunk("TOPO", w.b, 1, rng, v.odd_padding)); junk();
         } };
     topo(1, c.ev.size(), [&](size_t i) { return std::vector<int>{c.ev[i][0], c.ev[i][1]}; });
